@@ -45,4 +45,11 @@ man = {
     "notes": "See DESIGN.md. known_findings.json lists recorded (open) and fixed defects; `fix:` commits in /repo are listed there with their hashes.",
 }
 json.dump(man, open(os.path.join(V, "MANIFEST.json"), "w"), indent=1)
+# known_findings.json = union of harness/meta/*.findings.json (committed; never written at check time)
+import glob
+findings = []
+for f in sorted(glob.glob(os.path.join(V, "harness/meta/*.findings.json"))):
+    findings += json.load(open(f))
+json.dump({"_comment": "Genuine defects of rindPHI/isla found by the checks (generated from harness/meta/*.findings.json by harness/gen_manifest.py; never modified at check time). status=open: recorded; the check prints 'KNOWN-FINDING: property=<id> <what>' for exactly this class/witness and exits 0. status=fixed: repaired by a fix: commit in /repo ('fixed_line'); suppresses nothing.",
+           "findings": findings}, open(os.path.join(V, "known_findings.json"), "w"), indent=1)
 print("checks:", [c["property_id"] for c in checks], "not_applicable:", len(not_app))
